@@ -654,6 +654,41 @@ fn probe_queries(arg: u64, sim: &Sim, obs: &Obs, mon: &Monitor) -> ProbeResult {
         }
     }
 
+    // ---- the same set checks at forked instants around an expiration (sub-second resolution)
+    {
+        let fin: Vec<&LRec> = obs.listings.iter().filter(|l| l.status == St::Finalized && l.expiration.map_or(false, |e| e > now)).collect();
+        if let Some(l) = rng.pick_opt(&fin) {
+            let e = l.expiration.unwrap();
+            let offsets: [i64; 6] = [-1_000_000_000, -500_000_000, -1, 0, 1, 500_000_000];
+            let k = if thorough() { 6 } else { 2 };
+            let mut offs = offsets.to_vec();
+            rng.shuffle(&mut offs);
+            for d in offs.into_iter().take(k) {
+                let t = (e as i128 + d as i128) as u64;
+                if t <= now {
+                    continue;
+                }
+                let f = sim.fork();
+                f.chain.advance(t - now, (t - now) / 6_000_000_000);
+                let fo = f.observe();
+                r.hit("set_check_at_forked_expiry_instant");
+                if l.finalized.map_or(false, |fz| e - fz == 1_209_600 * 1_000_000_000) && d < 0 {
+                    r.hit("max_lifetime_listing_in_its_last_second");
+                }
+                set_checks(&f, &fo, &mut r, &mut rng, true);
+            }
+        }
+    }
+    set_checks(sim, obs, &mut r, &mut rng, false);
+    fee_query_checks(sim, obs, &mut r, &mut rng);
+    r
+}
+
+/// market and whitelist queries vs the purchase rule on the given (possibly forked) world
+fn set_checks(sim: &Sim, obs: &Obs, r: &mut ProbeResult, rng: &mut Prng, forked: bool) {
+    let names = &sim.names;
+    let now = obs.time_ns;
+    let _ = &rng;
     // ---- market listing: must contain every purchasable listing, nothing unpurchasable
     let must: BTreeSet<u64> = obs
         .listings
@@ -683,7 +718,9 @@ fn probe_queries(arg: u64, sim: &Sim, obs: &Obs, mon: &Monitor) -> ProbeResult {
     let n_fin = obs.listings.iter().filter(|l| l.finalized.is_some()).count();
     let mut got: Vec<u64> = vec![];
     let mut pages: BTreeSet<u8> = (1..=((n_fin / 20 + 2).min(255) as u8)).collect();
-    if thorough() && rng.chance(1, 3) {
+    if forked {
+        // the forked variants judge the sets only
+    } else if thorough() && rng.chance(1, 3) {
         pages.extend(1..=255u8);
     } else {
         pages.extend([13u8, 14, 128, 255]);
@@ -757,6 +794,11 @@ fn probe_queries(arg: u64, sim: &Sim, obs: &Obs, mon: &Monitor) -> ProbeResult {
             }
         }
     }
+}
+
+fn fee_query_checks(sim: &Sim, obs: &Obs, r: &mut ProbeResult, rng: &mut Prng) {
+    let names = &sim.names;
+    let now = obs.time_ns;
     // ---- fee query
     match q(sim, &json!({"get_fee_denom": {}})) {
         Err(e) => r.findings.push(Finding::new("C16.page_error", "get_fee_denom", format!("fee query failed: {e}"))),
@@ -808,10 +850,8 @@ fn probe_queries(arg: u64, sim: &Sim, obs: &Obs, mon: &Monitor) -> ProbeResult {
                     }
                 }
             }
-            let _ = mon;
         }
     }
-    r
 }
 
 // ------------------------------------------------------------------------------------------
@@ -986,9 +1026,15 @@ fn probe_hostile(arg: u64, sim: &Sim, obs: &Obs) -> ProbeResult {
                     continue;
                 }
                 let f = sim.fork();
-                let funds: Vec<(String, u128)> = if with_coins { vec![("ujunox".to_string(), 5)] } else { vec![] };
-                if with_coins {
-                    f.chain.mint(h, "ujunox", 100);
+                let funds: Vec<(String, u128)> = if !with_coins {
+                    vec![]
+                } else if rng.chance(1, 2) {
+                    vec![("ujunox".to_string(), 5)]
+                } else {
+                    vec![("ujunox".to_string(), 5), ("uatom".to_string(), 2)]
+                };
+                for (d, _) in &funds {
+                    f.chain.mint(h, d, 100);
                 }
                 let op = Op::tx("bystander", h, msgs::hostile_forward(m, call, &funds), vec![]);
                 let out = f.apply(&op);
@@ -1162,19 +1208,51 @@ fn probe_coins(arg: u64, sim: &Sim, obs: &Obs, mon: &Monitor) -> ProbeResult {
         ("receive", msgs::market_receive("user0", 5, &msgs::inner_create_bucket_cw20(999_996))),
         ("receive_nft", msgs::market_receive_nft("user0", "junk", &msgs::inner_create_bucket_cw721(999_995))),
     ] {
+        for coins in [
+            vec![("ujunox".to_string(), 5u128)],
+            vec![("ujunox".to_string(), 5u128), ("uatom".to_string(), 3u128)],
+            vec![("uatom".to_string(), 2u128), ("uusdcx".to_string(), 1u128), ("ujunox".to_string(), 1u128)],
+        ] {
+            let f = sim.fork();
+            for (d, _) in &coins {
+                f.chain.mint(&names.hostile, d, 50);
+            }
+            let op = Op::tx("bystander", &names.hostile, msgs::hostile_forward(m, &inner, &coins), vec![]);
+            let out = f.apply(&op);
+            r.case(&[b"coins_via_contract", kind.as_bytes(), &[out.ok as u8, coins.len() as u8]]);
+            r.fault("attach_coins");
+            r.hit("coins_on_receive_entry_point");
+            if coins.len() > 1 {
+                r.hit("several_denoms_on_receive_entry_point");
+            }
+            if out.ok {
+                r.findings.push(Finding::new(
+                    "C19.coins_kept",
+                    format!("{kind}:CoinsAttached"),
+                    format!("probe: {kind} called by a contract with {} denomination(s) attached succeeded", coins.len()),
+                ));
+            }
+        }
+    }
+    // a fee cycle that is due (fork the clock past the week mark), with coins
+    {
         let f = sim.fork();
-        f.chain.mint(&names.hostile, "ujunox", 50);
-        let op = Op::tx("bystander", &names.hostile, msgs::hostile_forward(m, &inner, &[("ujunox".to_string(), 5)]), vec![]);
-        let out = f.apply(&op);
-        r.case(&[b"coins_via_contract", kind.as_bytes(), &[out.ok as u8]]);
-        r.fault("attach_coins");
-        r.hit("coins_on_receive_entry_point");
-        if out.ok {
-            r.findings.push(Finding::new(
-                "C19.coins_kept",
-                format!("{kind}:CoinsAttached"),
-                format!("probe: {kind} called by a contract with coins attached succeeded"),
-            ));
+        f.chain.advance(8 * 86400 * 1_000_000_000 + rng.below(1_000_000_000), 100_000);
+        let coins = rng.pick(&coin_sets).clone();
+        if !coins.iter().any(|c| obs.bal("user1", &Fung::Native(c.denom.clone())) < c.amount) {
+            let op = Op::tx("user1", m, msgs::fee_cycle(), coins);
+            let out = f.apply(&op);
+            r.case(&[b"coins", b"fee_cycle_due", &[out.ok as u8]]);
+            r.fault("attach_coins");
+            r.hit("coins_on_due_fee_cycle");
+            r.hit("coins_on_message_that_would_succeed");
+            if out.ok {
+                r.findings.push(Finding::new(
+                    "C19.coins_kept",
+                    "fee_cycle:CoinsAttached",
+                    format!("probe: {} succeeded with coins attached once the cycle is due", op.short()),
+                ));
+            }
         }
     }
     let _ = mon;
